@@ -394,6 +394,27 @@ func (t *tr) stmts(ss []ast.Stmt) texpr {
 	return texpr{}
 }
 
+// pkgVarInit: the initialiser expression of a package-level variable declared as `var v = expr`
+func pkgVarInit(p *pkgInfo, v *types.Var) ast.Expr {
+	for _, f := range p.files {
+		for _, d := range f.Decls {
+			gd, ok := d.(*ast.GenDecl)
+			if !ok || gd.Tok != token.VAR {
+				continue
+			}
+			for _, sp := range gd.Specs {
+				vs := sp.(*ast.ValueSpec)
+				for i, n := range vs.Names {
+					if p.info.Defs[n] == v && i < len(vs.Values) {
+						return vs.Values[i]
+					}
+				}
+			}
+		}
+	}
+	return nil
+}
+
 func value(x texpr) string {
 	if x.isBool {
 		return "VBool " + x.s
@@ -448,55 +469,70 @@ func methods(p *pkgInfo, prefix string) {
 			}
 			if fd.Name.Name == "Fields" {
 				tb := table{name: prefix + "." + rid.Name, bits: -1}
+				// the table literal stands in the body, or in the initialiser of a package-level
+				// variable the body mentions (a table hoisted out of the method)
+				roots := []ast.Node{fd.Body}
 				ast.Inspect(fd.Body, func(n ast.Node) bool {
-					cl, ok := n.(*ast.CompositeLit)
-					if !ok {
-						return true
-					}
-					at, ok := cl.Type.(*ast.ArrayType)
-					if !ok {
-						return true
-					}
-					id, ok := at.Elt.(*ast.Ident)
-					if !ok || (id.Name != "FieldDescription" && id.Name != "Field") {
-						return true
-					}
-					if id.Name == "Field" && len(cl.Elts) != 1 {
-						// a hand-built []Field is only understood as "one field spanning the whole register"
-						untranslated = append(untranslated, prefix+"."+rid.Name+".Fields: hand-built []Field with more than one element")
-						return false
-					}
-					for _, el := range cl.Elts {
-						ecl, ok := el.(*ast.CompositeLit)
-						if !ok {
-							continue
+					if id, ok := n.(*ast.Ident); ok {
+						if v, ok := p.info.Uses[id].(*types.Var); ok && !v.IsField() && v.Pkg() != nil && v.Parent() == v.Pkg().Scope() {
+							if init := pkgVarInit(p, v); init != nil {
+								roots = append(roots, init)
+							}
 						}
-						var fn string
-						var off int64 = -1
-						for _, kv := range ecl.Elts {
-							k, ok := kv.(*ast.KeyValueExpr)
+					}
+					return true
+				})
+				for _, root := range roots {
+					ast.Inspect(root, func(n ast.Node) bool {
+						cl, ok := n.(*ast.CompositeLit)
+						if !ok {
+							return true
+						}
+						at, ok := cl.Type.(*ast.ArrayType)
+						if !ok {
+							return true
+						}
+						id, ok := at.Elt.(*ast.Ident)
+						if !ok || (id.Name != "FieldDescription" && id.Name != "Field") {
+							return true
+						}
+						if id.Name == "Field" && len(cl.Elts) != 1 {
+							// a hand-built []Field is only understood as "one field spanning the whole register"
+							untranslated = append(untranslated, prefix+"."+rid.Name+".Fields: hand-built []Field with more than one element")
+							return false
+						}
+						for _, el := range cl.Elts {
+							ecl, ok := el.(*ast.CompositeLit)
 							if !ok {
 								continue
 							}
-							key := k.Key.(*ast.Ident).Name
-							tvv := p.info.Types[k.Value]
-							if tvv.Value == nil {
-								continue
+							var fn string
+							var off int64 = -1
+							for _, kv := range ecl.Elts {
+								k, ok := kv.(*ast.KeyValueExpr)
+								if !ok {
+									continue
+								}
+								key := k.Key.(*ast.Ident).Name
+								tvv := p.info.Types[k.Value]
+								if tvv.Value == nil {
+									continue
+								}
+								if key == "Name" {
+									fn = constant.StringVal(tvv.Value)
+								}
+								if key == "BitOffset" {
+									off, _ = constant.Int64Val(constant.ToInt(tvv.Value))
+								}
 							}
-							if key == "Name" {
-								fn = constant.StringVal(tvv.Value)
-							}
-							if key == "BitOffset" {
-								off, _ = constant.Int64Val(constant.ToInt(tvv.Value))
-							}
+							tb.fields = append(tb.fields, struct {
+								name string
+								off  int64
+							}{fn, off})
 						}
-						tb.fields = append(tb.fields, struct {
-							name string
-							off  int64
-						}{fn, off})
-					}
-					return false
-				})
+						return false
+					})
+				}
 				tables = append(tables, tb)
 				continue
 			}
